@@ -16,7 +16,7 @@
      NC                                          length of dict_nonsimple_entries
      B w                                         simple_wordb / alnum_wordb under the R tables: e.g. "01"
      S item ; item ; ..                          C06Sentence.run_sentence under the R tables; item = "w cps" | "s n" | "p cp";
-                                                 prints "N" (not a sentence of the class) | "text cps | word spans" *)
+                                                 prints "N" (not a sentence of the class) | "text cps | all token spans | word spans" *)
 (* N -> 16 hex digits (dict_digest does not fit OCaml's 63-bit int) *)
 let hex_of_n (x : n) : string =
   let rec bits p = match p with XH -> [1] | XO q -> 0 :: bits q | XI q -> 1 :: bits q in
@@ -156,7 +156,9 @@ let () =
         let its = List.map item_of (nonempty (split_on ';' body)) in
         (match run_sentence (uni_now ()) its with
          | None -> print_endline "N"
-         | Some (txt, ws) -> print_endline (String.trim (line_of_text txt) ^ " | " ^ (if ws = [] then "-" else show_spans ws)))
+         | Some ((txt, ts), ws) ->
+             print_endline (String.trim (line_of_text txt) ^ " | " ^ (if ts = [] then "-" else show_spans ts)
+                            ^ " | " ^ (if ws = [] then "-" else show_spans ws)))
     | 'W' ->
         print_endline (String.concat " | "
           [show_entries f24_dict; line_of_text w_socio_political; show_spans f24_words; show_lints f24_run])
